@@ -1020,7 +1020,7 @@ PROPS['C09'] = dict(
 PROPS['C03'] = dict(
     module='FlacModel.Props.C03',
     theorems=['Flac.C03.wrapS32_add_wrap', 'Flac.C03.wrap_add_correct', 'Flac.C03.predict_refines_spec', 'Flac.C03.unfold_is_zigzag',
-              'Flac.C03.rchunk_rfc', 'Flac.C03.decLayout_eq_rfc', 'Flac.C03.leftside_refines_spec', 'Flac.C03.sideright_refines_spec',
+              'Flac.rchunk_rfc', 'Flac.C03.decLayout_eq_rfc', 'Flac.C03.decLayout_sound', 'Flac.C03.leftside_refines_spec', 'Flac.C03.sideright_refines_spec',
               'Flac.C03.midside_refines_spec', 'Flac.C03.wide_leftside_refines_spec', 'Flac.C03.md5_verify_iff'],
     components=[ValidStreams(('release', 'checked'))],
     rule='1500 (quick) / 60000 (thorough) streams from the Lean generator: blocking strategy, every block-size and sample-rate coding incl. uncommon 8/16-bit and '
